@@ -2240,6 +2240,13 @@ async fn bind_direct_rtcp_socket(
     Ok((rtcp, candidate))
 }
 
+fn note_peer_alive(inner: &IceTransportInner) {
+    inner.last_received_nanos.store(
+        inner.created_at.elapsed().as_nanos() as u64,
+        Ordering::Relaxed,
+    );
+}
+
 async fn handle_packet(
     packet: &[u8],
     addr: SocketAddr,
@@ -2250,16 +2257,21 @@ async fn handle_packet(
     if should_drop_packet() {
         return;
     }
-    inner.last_received_nanos.store(
-        inner.created_at.elapsed().as_nanos() as u64,
-        Ordering::Relaxed,
-    );
     // Zero-length payloads are legal on every path into here (empty UDP
     // datagram, TURN ChannelData with length 0, empty DATA attribute).
     if packet.is_empty() {
         return;
     }
     let b = packet[0];
+    // The liveness timestamp drives Disconnected -> Connected (and keeps the
+    // transport from ever reaching Disconnected / Failed). DTLS and media count as
+    // they arrive. A STUN message counts only once it has shown that it belongs to
+    // this session: a request past the credential check in handle_stun_request, a
+    // response that matches a transaction of ours - otherwise anybody's bare
+    // Binding request would bring a dead transport back to Connected.
+    if b >= 2 {
+        note_peer_alive(&inner);
+    }
     if b < 2 {
         // STUN
         match StunMessage::decode(packet) {
@@ -2278,6 +2290,7 @@ async fn handle_packet(
                 } else if msg.class == StunClass::SuccessResponse {
                     let mut map = inner.pending_transactions.lock();
                     if let Some(tx) = map.remove(&msg.transaction_id) {
+                        note_peer_alive(&inner);
                         let _ = tx.send(msg);
                     } else {
                         trace!(
@@ -2446,6 +2459,8 @@ async fn handle_stun_request(
             return;
         }
     }
+
+    note_peer_alive(&inner);
 
     if let IceSocketWrapper::TcpStream(_, _, peer) = sender {
         inner.authenticated_tcp_peers.lock().insert(*peer);
